@@ -266,6 +266,45 @@ func c18Literals(c *Ctx, idx int) {
 	}
 }
 
+// deep: documents nested d levels deep (arrays, objects, alternating) for d around the usual
+// depth limits; e1 adds a few levels; the result must serialise (encoding/json accepts any depth
+// when encoding), be acceptable as input, and re-query like the piped form.
+var c18Depths = []int{10, 100, 1000, 9990, 9998, 9999, 10000, 10001, 10002, 10010, 20000, 49990}
+
+func c18DeepN(c *Ctx) int { return len(c18Depths) * 3 }
+
+func c18Deep(c *Ctx, idx int) {
+	d := c18Depths[idx%len(c18Depths)]
+	kind := idx / len(c18Depths)
+	var doc any = json.Number("7")
+	for i := 0; i < d; i++ {
+		switch {
+		case kind == 0 || (kind == 2 && i%2 == 0):
+			doc = []any{doc}
+		default:
+			doc = map[string]any{"k": doc}
+		}
+	}
+	for _, e1 := range []string{"@", "[@]", "{k: @}", "[[@]]", "to_array(@)", "[@, @]", "not_null(@)", "merge({k: @})", "[0] || k", "map(&[@], to_array(@))"} {
+		l1 := c.LibSearch(e1, doc)
+		if l1.Panic != nil {
+			c.Report(Violation{Rule: "C18/panic", Expr: e1, Data: fmt.Sprintf("document nested %d levels", d), Got: ShowOut(l1)})
+			continue
+		}
+		if l1.Err != nil {
+			continue
+		}
+		for _, e2 := range []string{"length(@)", "type(@)", "[0] || k | type(@)", "@ == @", "[@][0] | type(@)", "keys(@) || length(@)", "not_null(@) | type(@)"} {
+			want := c.LibSearch("("+e1+") | "+e2, doc)
+			got := c.LibSearch(e2, l1.Res)
+			if !SameOutcome(want, got, false) {
+				c.Report(Violation{Rule: "C18/requery", Expr: "(" + e1 + ") | " + e2, Data: fmt.Sprintf("document nested %d levels (kind %d)", d, kind), Got: ShowOut(got) + "  (Search(" + e2 + ", r1))", Want: ShowOut(want)})
+			}
+		}
+		c.Nontrivial(e1, fmt.Sprint(d, kind))
+	}
+}
+
 // extremes: arithmetic near the ends of each numeric representation must give
 // an error or a finite number, never an infinity/NaN value
 func c18Extremes(c *Ctx, idx int) {
@@ -302,11 +341,12 @@ func c18Extremes(c *Ctx, idx int) {
 func init() {
 	Register(&Property{
 		ID:            "C18",
-		Rule:          "seeded (e1, document) pairs with e1 weighted towards functions and operators that construct values (length, find_*, arithmetic, keys, items, zip, group_by, split, to_array, map, sum, avg, literals): the result r1 is walked (only nil/bool/string/[]any/map[string]any/supported numeric kinds, no typed nils, no non-finite numbers), serialised with encoding/json and decoded again (structural view and JSON view must agree), and then re-queried with 6 of 59 inspecting expressions e2 (types, equality, sorting, indexing, arithmetic, string functions; none mentions $ or outer variables): Search(e2, r1) and Search(e2, JSON round trip of r1) must equal Search(\"(e1) | e2\", document); extremes stream: 23 arithmetic forms over operands near the ends of float64, float32, decimal128 and json.Number must return an error or finite, serialisable numbers; non-trivial = at least one e2 yields a non-null value; distinct by (e1, document); literal-results stream: JSON literals in random legal layouts (white space inside the backticks, escapes, exponent spellings) alone and inside multi-selects / pipes / function calls: the result passes the domain walk, serialises, and re-queries like its JSON round trip",
+		Rule:          "seeded (e1, document) pairs with e1 weighted towards functions and operators that construct values (length, find_*, arithmetic, keys, items, zip, group_by, split, to_array, map, sum, avg, literals): the result r1 is walked (only nil/bool/string/[]any/map[string]any/supported numeric kinds, no typed nils, no non-finite numbers), serialised with encoding/json and decoded again (structural view and JSON view must agree), and then re-queried with 6 of 59 inspecting expressions e2 (types, equality, sorting, indexing, arithmetic, string functions; none mentions $ or outer variables): Search(e2, r1) and Search(e2, JSON round trip of r1) must equal Search(\"(e1) | e2\", document); extremes stream: 23 arithmetic forms over operands near the ends of float64, float32, decimal128 and json.Number must return an error or finite, serialisable numbers; non-trivial = at least one e2 yields a non-null value; distinct by (e1, document); literal-results stream: JSON literals in random legal layouts (white space inside the backticks, escapes, exponent spellings) alone and inside multi-selects / pipes / function calls: the result passes the domain walk, serialises, and re-queries like its JSON round trip; deep stream: documents nested 10 .. 49990 levels deep (arrays, objects, alternating), with e1 adding levels: the result re-queries like the piped form",
 		MinNontrivial: 2000,
 		Streams: []Stream{
 			{Name: "requery", N: func(c *Ctx) int { return tierN(c, 20000, 3000000) }, Run: c18Run},
 			{Name: "extremes", N: func(c *Ctx) int { return tierN(c, 3000, 60000) }, Run: c18Extremes},
+			{Name: "deep", N: c18DeepN, Run: c18Deep, Exhaustive: true},
 			{Name: "literal-results", N: func(c *Ctx) int { return tierN(c, 4000, 200000) }, Run: c18Literals},
 			{Name: "null-elements", N: func(c *Ctx) int { return tierN(c, 3000, 60000) }, Run: c18Nulls},
 		},
